@@ -170,6 +170,29 @@ def case_fn(case):
     if cn.indent_canon(idnt) != c0:
         viol("curve-changed", "all", "computing the features changed the "
              "curve")
+    # the caller owns the returned name list: rearranging it must not
+    # change what later requests return
+    bnames_obj, bnames = bnames, list(bnames)
+    try:
+        for wt in ("all", "binary", "continuous"):
+            v1, n1 = feats(idnt, wt)
+            keep = list(n1)
+            if isinstance(n1, list) and len(n1) > 1:
+                n1.reverse()
+                n1.pop()
+            v2, n2 = feats(idnt, wt)
+            if list(n2) != keep or not np.array_equal(v1, v2,
+                                                      equal_nan=True):
+                viol("order", f"{wt}:after-caller-edit", "after the caller "
+                     "rearranged the name list returned by an earlier "
+                     f"request, the same request returns names {list(n2)[:3]}"
+                     f"... ({len(n2)} names, before: {len(keep)})")
+                break
+    except BaseException as e:
+        if isinstance(e, (KeyboardInterrupt, SystemExit, MemoryError)):
+            raise
+        viol("feature-raises" if st.startswith("fitted")
+             else "unfitted-raises", "after-caller-edit", repr(e))
     fitted_ok = bool(idnt.fit_properties.get("success", False))
     fmax_pos = False
     if "force" in idnt:
